@@ -405,3 +405,10 @@ package graphql
 // PrepareQuery walks the (trusted) schema, whose output types are exactly these six kinds; the selection set is untrusted.
 //@ func PrepareQuery
 //@   assume typ is *Scalar || typ is *Enum || typ is *Union || typ is *Object || typ is *List || typ is *NonNull
+
+//@ func SelectionSet.ShallowCopy
+//@   requires s != nil
+//@   assigns nothing
+//@   ensures result != nil && fresh(result)
+//@   ensures len(result.Selections) == len(s.Selections) && (forall k int :: 0 <= k && k < len(s.Selections) ==> result.Selections[k] == s.Selections[k]) && (result.Selections == nil || (fresh(result.Selections) && allocated(result.Selections)))
+//@   ensures len(result.Fragments) == len(s.Fragments) && (forall k int :: 0 <= k && k < len(s.Fragments) ==> result.Fragments[k] == s.Fragments[k]) && (result.Fragments == nil || (fresh(result.Fragments) && allocated(result.Fragments)))
